@@ -57,6 +57,42 @@ def gen_cases(rng, n, plain_share=0.08, mode=0):
     return cases
 
 
+def targeted_cases(rng):
+    """the loop variable (of the innermost and of an enclosing loop, plain and indexed) in EVERY position that holds an
+    expression -- {math:}, inline-if case, <if case>, every <else if case> -- with cases whose outcome depends on it"""
+    P = ta.P
+    EQ, NE, LT, GT, ADD, MUL = 3, 4, 5, 6, 0, 2
+    out = []
+
+    def x(name, idx=()):
+        return ("x", P(name, idx))
+
+    def chain(var, k1, k2, k3):
+        return ("f", ("b", EQ, var, ("n", k1)), [("t", "one")],
+                [(("b", EQ, var, ("n", k2)), [("t", "two"), ("v", var[1])]), (("b", GT, var, ("n", k3)), [("t", "big")]), (None, [("t", "other")])])
+
+    for _ in range(3):
+        root, _sortable = ta.gen_root(rng)
+        root["list"] = rng.sample([1, 2, 3, 4, 5, 7], rng.randrange(2, 6))
+        root["items"] = [{"name": "x", "val": 1, "g": "p"}, {"g": "q", "name": "y", "val": 2}, {"val": 5, "g": "p", "name": "z"}][: rng.randrange(1, 4)]
+        a, b, c = rng.choice([1, 2]), rng.choice([2, 3, 4]), rng.choice([2, 4])
+        asts = [
+            [("l", P("list"), "v", "", 0, [chain(x("v"), a, b, c), ("t", ",")])],
+            [("l", P("list"), "v", "", 0, [("l", P("list"), "e1", "", 0, [
+                ("f", ("b", EQ, x("v"), x("e1")), [("t", "=")], [(("b", LT, x("v"), x("e1")), [("t", "<")]), (("b", GT, x("v"), ("n", c)), [("t", ">")]), (None, [("t", "!")])])]), ("t", ";")])],
+            [("l", P("list"), "v", "", 0, [("m", ("b", ADD, ("b", MUL, x("v"), ("n", 10)), x("n1"))), ("t", " "),
+                                           ("i", ("b", GT, x("v"), ("n", b)), [("t", "big")], [("t", "small"), ("v", P("v"))]), ("t", ",")])],
+            [("l", P("items"), "item", "", 0, [chain(x("item", ["val"]), a, b, c), ("t", "/")])],
+            [("f", ("b", EQ, x("n1"), ("n", 987)), [("t", "x")], [(("b", EQ, x("n1"), x("n1")), [("l", P("list"), "v", "", 0, [chain(x("v"), a, b, c)])])])],
+            [("l", P("list"), "v", "", 0, [("f", ("b", GT, x("v"), ("n", 0)), [("l", P("list"), "row", "", 0, [
+                ("f", ("b", EQ, x("row"), ("n", 99)), [("t", "no")], [(("b", LT, x("v"), x("row")), [("t", "L"), ("v", P("v"))]), (("b", EQ, x("row"), x("v")), [("t", "E")])])])], [])])],
+            [("l", P("items"), "item", "g", 0, [("l", P("item"), "row", "", 0, [chain(x("row", ["val"]), a, b, c)]), ("t", "|")])],
+        ]
+        for ast in asts:
+            out.append(Case(rng.choice([0, 0, 1, 2, 3]), ast, root, 0))
+    return out
+
+
 def run_cases(exe, cases, auto=2):
     """returns list of (case, printed, impl, model, verdict)"""
     mexe, msg = vlib.build_ocaml("tmpl")
@@ -191,7 +227,7 @@ def check(tier):
         return rep.finish()
     boost = 1 if st["ok"] else 4
     n = (2500 if tier == "quick" else 40000) * boost
-    cases = gen_cases(rng, n)
+    cases = targeted_cases(rng) + gen_cases(rng, n)
     results, crashes = run_cases(exe, cases)
     nfail, nmis = decide(rep, exe, results, st["ok"], st["log"])
     builds = ["sse2"]
